@@ -20,6 +20,35 @@ Theorem C21_read_after_write : FunExt -> forall UK UB ops o k,
 Proof. exact completed_eq_direct. Qed.
 Print Assumptions C21_read_after_write.
 
+(* write-through operations (conditional / versioned PutObject and DeleteObject, DeleteObjects on a
+   versioned bucket, PutBucketVersioning, Create/UploadPart/Complete/AbortMultipartUpload, CopyObject,
+   AppendObject, Put/DeleteObjectTagging) and reads: when one of them reaches the inner storage,
+   no entry of the class it depends on (call_class / rd_class: its key + the bucket's lifecycle
+   entries; CopyObject: source and destination; the whole bucket for DeleteObjects and
+   PutBucketVersioning) is still pending ... *)
+Theorem C21_write_through_waits_for_its_class : FunExt -> forall UK UB ops o k,
+  seqclient UK UB init_state ops = true ->
+  completes (state_after UK UB ops) o = Some k ->
+  Forall (fun e => conflict (cont_class k) (e_pl e) = false) (queue (state_after UK UB ops)).
+Proof. exact completes_noconf. Qed.
+Print Assumptions C21_write_through_waits_for_its_class.
+
+(* ... and that class is enough: entries outside it change neither the operation's result nor, for a
+   write, its effect (it commutes with their replay) — so together with C21_read_after_write a
+   write-through operation observes every previously accepted write it depends on, and a later
+   replay cannot undo it *)
+Theorem C21_class_suffices : FunExt -> forall UK UB k q,
+  Forall (fun e => conflict (cont_class k) (e_pl e) = false) q ->
+  forall s,
+  match k with
+  | KCall c => apps UK (app UK s c) (map (fun e => replay_call (e_pl e)) q)
+               = app UK (apps UK s (map (fun e => replay_call (e_pl e)) q)) c /\
+               snd (apply_call UK (apps UK s (map (fun e => replay_call (e_pl e)) q)) c) = snd (apply_call UK s c)
+  | KRead r => read_inner UK UB (apps UK s (map (fun e => replay_call (e_pl e)) q)) r = read_inner UK UB s r
+  end.
+Proof. exact indep_queue. Qed.
+Print Assumptions C21_class_suffices.
+
 (* once the outbox is drained the inner storage is exactly the fold of the accepted writes, in
    acceptance order, applied directly *)
 Theorem C21_drained_eq_sequential : FunExt -> forall UK UB ops,
@@ -94,6 +123,19 @@ Definition ex_o : popts := {| o_tags := [(B"t", B"1")]; o_meta := Some {| m_sys 
                               o_class := Some B"STANDARD_IA"; o_ifnone := false; o_ifmatch := None |}.
 Definition ex_ops : list op :=
   [OCall (CCreate B"b"); OCall (CPut B"b" B"k" 7 (Some B"text/plain") ex_o); ORead (RGet B"b" B"k"); OWork; OWork].
+(* an acknowledged, not yet replayed put on k followed by CompleteMultipartUpload If-None-Match:* on k:
+   the complete blocks, and after the replay it fails as on a plain storage *)
+Definition ex_o0 : popts := {| o_tags := []; o_meta := None; o_class := None; o_ifnone := false; o_ifmatch := None |}.
+Definition ex_mp : list op :=
+  [OCall (CCreate B"b"); OWork; OCall (CMpCreate B"b" B"k" 1 None ex_o0); OCall (CMpPart B"b" B"k" 1 1 5);
+   OCall (CPut B"b" B"k" 7 None ex_o0); OCall (CMpComplete B"b" B"k" 1 true None); OWork; OJoin].
+Example C21_ex_complete_inm_after_queued_put :
+  seqclient [B"k"] [B"b"] init_state ex_mp = true /\
+  snd (run [B"k"] [B"b"] init_state ex_mp) =
+    [ResCall None; ResWorker (Some None); ResCall None; ResCall None; ResCall None; ResBlocked;
+     ResWorker (Some None); ResCall (Some PreconditionFailed)].
+Proof. split; reflexivity. Qed.
+
 Example C21_ex_blocked_then_served :
   seqclient [B"k"] [B"b"] init_state ex_ops = true /\
   snd (run [B"k"] [B"b"] init_state ex_ops) = [ResCall None; ResCall None; ResBlocked; ResWorker (Some None); ResWorker (Some None)] /\
